@@ -24,9 +24,10 @@
 (*     base = "P": the original plaintext pid (n0 bytes); "G": garbage of   *)
 (*     gl bytes; layers = sequence of <<method, key>>, outermost last.      *)
 (*   Enc pushes a layer; Dec(m,k) pops the layer <<m,k>> (cancellation law  *)
-(*   Dec(m,k,Ct(m,k,x)) = x); any other key gives Garbage for RC4 and a     *)
-(*   padding error for AES.  RC4 is the identity on the empty string, AES   *)
-(*   ciphertext is 16 + 16*(n \div 16 + 1) bytes long.                      *)
+(*   Dec(m,k,Ct(m,k,x)) = x); any other key gives Garbage for RC4 (a layer  *)
+(*   that only the same wrong key removes again) and a padding error for    *)
+(*   AES.  RC4 is the identity on the empty string, AES ciphertext is       *)
+(*   16 + 16*(n \div 16 + 1) bytes long.                                    *)
 (***************************************************************************)
 EXTENDS Naturals, Sequences, FiniteSets
 
@@ -55,21 +56,31 @@ IsPlain(pl) == pl.base = "P" /\ pl.layers = <<>>
 
 Garbage(pl, n) == [pl EXCEPT !.base = "G", !.gl = n, !.layers = <<>>]
 
+\* RC4 is an involution: encrypting and decrypting are the same XOR with the key stream of k, XORs with different
+\* keys commute and cancel pairwise.  So among the RC4 layers on top of a payload a layer with the same key is
+\* removed, otherwise one is added (a payload carrying a layer of a wrong key is what the text calls Garbage).
+Rc4(k, pl) ==
+    IF LenOf(pl) = 0 THEN pl
+    ELSE LET ls  == pl.layers
+             st  == IF \E i \in 1..Len(ls) : ls[i][1] # "RC4"
+                    THEN 1 + CHOOSE i \in 1..Len(ls) : ls[i][1] # "RC4" /\ \A x \in (i + 1)..Len(ls) : ls[x][1] = "RC4"
+                    ELSE 1
+             hit == {i \in st..Len(ls) : ls[i] = <<"RC4", k>>}
+         IN IF hit = {} THEN [pl EXCEPT !.layers = Append(ls, <<"RC4", k>>)]
+            ELSE LET h == CHOOSE i \in hit : TRUE IN [pl EXCEPT !.layers = SubSeq(ls, 1, h - 1) \o SubSeq(ls, h + 1, Len(ls))]
+
 \* CryptFilter::encrypt
 Enc(m, k, pl) ==
     IF m = "Identity" THEN pl
-    ELSE IF m = "RC4" /\ LenOf(pl) = 0 THEN pl
+    ELSE IF m = "RC4" THEN Rc4(k, pl)
     ELSE [pl EXCEPT !.layers = Append(@, <<m, k>>)]
 
 \* CryptFilter::decrypt: [pl, err]
 Dec(m, k, pl) ==
     LET n == LenOf(pl) ls == pl.layers IN
     IF m = "Identity" THEN [pl |-> pl, err |-> ""]
-    ELSE IF m = "RC4"
-         THEN IF n = 0 THEN [pl |-> pl, err |-> ""]
-              ELSE IF ls # <<>> /\ ls[Len(ls)] = <<m, k>> THEN [pl |-> [pl EXCEPT !.layers = SubSeq(ls, 1, Len(ls) - 1)], err |-> ""]
-              ELSE [pl |-> Garbage(pl, n), err |-> ""]
-    ELSE \* AES-CBC with PKCS#5
+    ELSE IF m = "RC4" THEN [pl |-> Rc4(k, pl), err |-> ""]
+    ELSE \* AES-CBC with PKCS#5: wrong key = padding error (a valid padding by chance, 1 in 256, is not modelled)
          IF n % 16 # 0 THEN [pl |-> pl, err |-> "InvalidCipherTextLength"]
          ELSE IF n = 0 \/ n = 16 THEN [pl |-> IF pl.n0 = 0 /\ pl.base = "P" THEN [pl EXCEPT !.layers = <<>>] ELSE Garbage(pl, 0), err |-> ""]
          ELSE IF ls # <<>> /\ ls[Len(ls)] = <<m, k>> THEN [pl |-> [pl EXCEPT !.layers = SubSeq(ls, 1, Len(ls) - 1)], err |-> ""]
@@ -149,7 +160,8 @@ AllEq(items, viaFile) ==
 (*   [u, o] with values "same" (the very string), "equiv" (another string   *)
 (*   with the same canonical form under the revision's own canonicalisation:*)
 (*   PDFDocEncoding + first 32 bytes for R<=4, SASLprep + first 127 bytes   *)
-(*   for R>=5), "diff" (canonical forms differ).                            *)
+(*   for R>=5), "diff" (canonical forms differ), "unsure" (the canonical     *)
+(*   forms depend on what is done with characters PDFDocEncoding lacks).     *)
 
 Right(rel) == rel.u = "same" \/ rel.o = "same"
 Wrong(rel) == rel.u = "diff" /\ rel.o = "diff"
@@ -165,10 +177,11 @@ RightFailClass(cfg, rel, dflt) ==
 (* cfg = [V, R, klen, em, cf, stmf, strf, ulen, olen, e, nobj0]             *)
 (*   e = relation of the EMPTY password (what the loader tries), nobj0 =     *)
 (*   number of objects of the plaintext document.                            *)
-(* j   = [mem, disk]: what the in-memory document / the saved file are      *)
+(* j   = [mem, disk, via]: what the in-memory document / the saved file are *)
 (*   according to the PROPERTY: "plain", "enc" (the plaintext document       *)
 (*   encrypted under cfg), "lost" (after an anomaly: nothing is demanded     *)
-(*   until the run is reset), disk also "none".                              *)
+(*   until the run is reset), disk also "none"; via: the in-memory document  *)
+(*   was read from a file (bookkeeping objects are then not demanded).       *)
 (* ev  = [call, rel, res ("Ok" | "Err"), tenc, nobj, items, same]            *)
 (* Result: [ok, tags, j]                                                    *)
 
@@ -182,7 +195,7 @@ RestoredTags(cfg, ev, viaFile) ==
 
 JudgeEncrypt(cfg, j, ev) ==
     IF j.mem # "plain" THEN Vd(TRUE, {"ok-unjudged"}, [j EXCEPT !.mem = IF ev.same THEN j.mem ELSE "lost"])
-    ELSE IF ev.res # "Ok" THEN Vd(FALSE, {"encrypt.err"}, [j EXCEPT !.mem = Resync(ev, FALSE)])
+    ELSE IF ev.res # "Ok" THEN Vd(FALSE, {"encrypt.err"}, [j EXCEPT !.mem = Resync(ev, j.via)])
     ELSE LET t1 == IF ~ev.tenc \/ ev.nobj # cfg.nobj0 + 1 THEN {"encrypt.noencdict"} ELSE {}
              t2 == HiddenFails(cfg, ev.items)
          IN Vd(t1 \cup t2 = {}, IF t1 \cup t2 = {} THEN {"ok"} ELSE t1 \cup t2,
@@ -195,20 +208,20 @@ JudgeDecrypt(cfg, j, ev) ==
     ELSE IF Right(ev.rel)
     THEN IF ev.res # "Ok"
          THEN Vd(FALSE, {RightFailClass(cfg, ev.rel, "either.rejected")}, [j EXCEPT !.mem = IF ev.same THEN "enc" ELSE "lost"])
-         ELSE LET t == RestoredTags(cfg, ev, FALSE) IN
+         ELSE LET t == RestoredTags(cfg, ev, j.via) IN
               IF t = {} THEN Vd(TRUE, {"ok-restored"}, [j EXCEPT !.mem = "plain"])
               ELSE Vd(FALSE, IF t = {"restored.content"} THEN {RightFailClass(cfg, ev.rel, "restored.content")} ELSE t,
-                     [j EXCEPT !.mem = Resync(ev, FALSE)])
+                     [j EXCEPT !.mem = Resync(ev, j.via)])
     ELSE IF Wrong(ev.rel)
-    THEN IF ev.res = "Ok" THEN Vd(FALSE, {"rejects.accepted"}, [j EXCEPT !.mem = Resync(ev, FALSE)])
+    THEN IF ev.res = "Ok" THEN Vd(FALSE, {"rejects.accepted"}, [j EXCEPT !.mem = Resync(ev, j.via)])
          ELSE IF ~ev.same THEN Vd(FALSE, {"rejects.mutated"}, [j EXCEPT !.mem = "lost"])
          ELSE Vd(TRUE, {"ok-rejected"}, j)
     ELSE \* an equivalent password: acceptance is not demanded, but an accepted one must restore
          IF ev.res = "Ok"
-         THEN LET t == RestoredTags(cfg, ev, FALSE) IN
+         THEN LET t == RestoredTags(cfg, ev, j.via) IN
               IF t = {} THEN Vd(TRUE, {"ok-equiv-restored"}, [j EXCEPT !.mem = "plain"])
               ELSE Vd(FALSE, IF t = {"restored.content"} /\ cfg.R <= 4 /\ ev.rel.u = "diff" THEN {"owner.R234.key"} ELSE t,
-                     [j EXCEPT !.mem = Resync(ev, FALSE)])
+                     [j EXCEPT !.mem = Resync(ev, j.via)])
          ELSE Vd(TRUE, {"ok-equiv-rejected"}, [j EXCEPT !.mem = IF ev.same THEN "enc" ELSE "lost"])
 
 JudgeAuth(cfg, j, ev) ==
@@ -226,13 +239,14 @@ JudgeAuth(cfg, j, ev) ==
 
 JudgeSave(cfg, j, ev) ==
     IF ev.res = "Ok" /\ ev.same THEN Vd(TRUE, {"ok-saved"}, [j EXCEPT !.disk = j.mem])
-    ELSE Vd(TRUE, {"ok-unjudged"}, [mem |-> IF ev.same THEN j.mem ELSE "lost", disk |-> "lost"])
+    ELSE Vd(TRUE, {"ok-unjudged"}, [j EXCEPT !.mem = IF ev.same THEN j.mem ELSE "lost", !.disk = "lost"])
 
 \* the loader may decrypt on its own, but only with the empty password, and only if that is the user or owner password
 LoadFailClass(cfg, dflt) ==
     IF cfg.R <= 4 /\ cfg.e.o \in {"same", "equiv"} /\ cfg.e.u = "diff" THEN "owner.R234.key" ELSE dflt
 
-JudgeLoad(cfg, j, ev) ==
+JudgeLoad(cfg, j0, ev) ==
+    LET j == [j0 EXCEPT !.via = @ \/ ev.res = "Ok"] IN
     IF j.disk = "enc"
     THEN IF ev.res # "Ok" THEN Vd(FALSE, {LoadFailClass(cfg, "viafile.load.err")}, [j EXCEPT !.mem = IF ev.same THEN j.mem ELSE "lost"])
          ELSE IF ev.tenc
@@ -258,7 +272,7 @@ Judge(cfg, j, ev) ==
       [] ev.call = "MakeState" -> IF ev.res = "Ok" /\ ev.same THEN Vd(TRUE, {"ok"}, j) ELSE Vd(FALSE, {"makestate.err"}, j)
       [] OTHER                 -> Vd(FALSE, {"unknown.call"}, j)
 
-J0 == [mem |-> "plain", disk |-> "none"]
+J0 == [mem |-> "plain", disk |-> "none", via |-> FALSE]
 
 \* The clauses by name (for the reader; Judge is their conjunction applied to one call):
 \*   Restored : Decrypt with a right password returns Ok, every item equals its plaintext, no /Encrypt, no extra object
@@ -429,7 +443,8 @@ ItemsOf(o, insd, otyp, inmd) ==
 
 Items(objs) == ItemsSeq(objs, FALSE, "-", FALSE)
 
-NObj(objs) == Len(objs)
+\* objects typed /XRef are cross-reference bookkeeping (never written by save): not counted
+NObj(objs) == Cardinality({i \in 1..Len(objs) : ~(objs[i].k \in {"stream", "dict"} /\ objs[i].typ = "XRef")})
 
 \* the observation record of a call that led from s to t
 Observe(s, t, c) ==
